@@ -85,8 +85,14 @@ class FG:
                              (S("floor-quotient"), [t(7), 0]), (S("floor-remainder"), [Fraction(1, 2), 0]), (S("floor-quotient"), [Fraction(3, 2), t(0)]),
                              (S("/"), [0, 0]), (S("floor-remainder"), [t(5), [S("-"), 2, 2]])])
         if fault == "unbound-read":
+            if r.random() < 0.35:
+                # a name whose own internal definition comes later in the same body (and that has no outer binding): not bound yet when it is read
+                return None, [[S("lambda"), [], [S("define"), S("early"), r.choice([S("later-zz"), [S("list"), t(1), S("later-zz")], [S("+"), S("later-zz"), 1]])],
+                               [S("define"), S("later-zz"), t(2)], [S("list"), S("early"), S("later-zz")]]]
             return None, S("no-such-variable")
         if fault == "unbound-set":
+            if r.random() < 0.35:
+                return None, [[S("lambda"), [], [S("define"), S("early"), [S("begin"), [S("set!"), S("later-zz"), t(1)], 0]], [S("define"), S("later-zz"), t(2)], [S("list"), S("early"), S("later-zz")]]]
             return None, [S("set!"), S("no-such-variable"), t(1)]
         raise ValueError(fault)
 
